@@ -101,8 +101,8 @@ struct upipe_h264f {
     struct uchain blockers;
     /** true if the pipe holds a reference on itself while urefs are buffered */
     bool buffered;
-    /** number of invocations of the Annex B parser (to detect re-entrance) */
-    unsigned int work_calls;
+    /** true while the buffered urefs are being handled */
+    bool draining;
     /** buffered output uref (used during urequest) */
     struct uref *uref_output;
 
@@ -318,7 +318,7 @@ static struct upipe *upipe_h264f_alloc(struct upipe_mgr *mgr,
     upipe_h264f_init_output(upipe);
     upipe_h264f_init_input(upipe);
     upipe_h264f_from_upipe(upipe)->buffered = false;
-    upipe_h264f_from_upipe(upipe)->work_calls = 0;
+    upipe_h264f_from_upipe(upipe)->draining = false;
     upipe_h264f_init_flow_format(upipe);
     upipe_h264f_init_flow_def(upipe);
     upipe_h264f_init_ubuf_mgr(upipe);
@@ -2396,7 +2396,6 @@ static bool upipe_h264f_find(struct upipe *upipe,
 static void upipe_h264f_work_annexb(struct upipe *upipe, struct upump **upump_p)
 {
     struct upipe_h264f *upipe_h264f = upipe_h264f_from_upipe(upipe);
-    unsigned int work_calls = ++upipe_h264f->work_calls;
     while (upipe_h264f->next_uref != NULL) {
         if (upipe_h264f->flow_def_requested == NULL &&
             upipe_h264f->flow_def_attr != NULL)
@@ -2409,14 +2408,6 @@ static void upipe_h264f_work_annexb(struct upipe *upipe, struct upump **upump_p)
 
         upipe_h264f->au_size -= start_size;
         upipe_h264f_end_annexb(upipe, upump_p);
-
-        /* Outputting an access unit may change the flow definition; when the
-         * provider answers the new request at once, the buffered input is
-         * handled from inside this call and this function has already run
-         * again on the same stream, starting over from this start code: the
-         * local state is stale and there is nothing left to do here. */
-        if (upipe_h264f->work_calls != work_calls)
-            return;
 
         if (upipe_h264f->flow_def_requested == NULL &&
             upipe_h264f->flow_def_attr != NULL)
@@ -2810,11 +2801,18 @@ static int upipe_h264f_check_ubuf_mgr(struct upipe *upipe,
     }
 
     /* Providers may answer from inside upipe_h264f_output_input (new
-     * parameter sets renew the requests), which runs this function again:
-     * keep the pipe until we are done, and release the reference of
-     * upipe_h264f_input only once. */
+     * parameter sets renew the requests), which runs this function again,
+     * from inside the parser: the buffered urefs must not be handled from
+     * there (the parser would run on the stream it is reading, and free the
+     * buffers it is reading from); the invocation that is already handling
+     * them goes on afterwards. Keep the pipe until we are done, and release
+     * the reference of upipe_h264f_input only once. */
+    if (upipe_h264f->draining)
+        return UBASE_ERR_NONE;
+    upipe_h264f->draining = true;
     upipe_use(upipe);
     upipe_h264f_output_input(upipe);
+    upipe_h264f->draining = false;
     upipe_h264f_unblock_input(upipe);
     if (upipe_h264f->buffered && upipe_h264f_check_input(upipe)) {
         /* All packets have been output, release again the pipe that has been
